@@ -166,7 +166,8 @@ def st_fixed(draw):
     nshape = 6 if nf == 2 else 3
     shapes = [draw(st_shape(nf)) for _ in range(nshape)]
     return {"kind": "fixed", "spec": spec, "tfrac": round(draw(st.floats(0.0, 1.0)), 4),
-            "at_tn": draw(st.booleans()), "shapes": shapes, "Ms": list(GRID_SIZES)}
+            "at_tn": draw(st.booleans()), "shapes": shapes, "Ms": list(GRID_SIZES),
+            "warm_tfrac": draw(st.sampled_from([None, None, 0.05, 0.5, 0.95]))}
 
 
 @st.composite
@@ -405,6 +406,26 @@ def check_fixed(case, v: Verdict):
             v.label("skipped:fixed-pressure (anchor attribute absent)")
             return
         eoms[M] = eom
+    if case.get("warm_tfrac") is not None:
+        # call history on the EOM object ("for every temperature" on one object): the same object first evaluated a
+        # wall between the phases at ANOTHER temperature of the coexistence range (other minima, other field
+        # difference); the pressure at T must not remember it
+        lo_, hi_ = coexistence_range(cf, Tn)
+        Tw = lo_ + case["warm_tfrac"] * (hi_ - lo_)
+        if abs(Tw - T) > 1e-3 * T and cf.exists("low", Tw) and cf.exists("high", Tw):
+            vlw, vhw = cf.phase("low", Tw), cf.phase("high", Tw)
+            for M, eom in eoms.items():
+                wpw = WallGo.WallParams(widths=np.full(len(vl), 5.0 / Tw), offsets=np.zeros(len(vl)))
+                eom._updateGrid(wpw, -0.5)
+                nw = len(eom.grid.xiValues)
+                eom._intermediatePressureResults(
+                    wpw, WallGo.Fields(vlw), WallGo.Fields(vhw), -1.0, 1.0, -0.5, zero_boltzmann(eom), Tw, Tw,
+                    temperatureProfileInput=np.full(nw, Tw), velocityProfileInput=np.full(nw, -0.5), multiplier=0)
+            v.label("eom-history:other-temperature-first")
+        else:
+            v.label("eom-history:none(warm temperature unusable)")
+    else:
+        v.label("eom-history:none")
     worst = 0.0
     pts = []
     any_nontrivial = False
@@ -655,7 +676,26 @@ def check_profile(case, v: Verdict):
         f, d = eom.wallProfile(np.asarray(zarr, dtype=float), FL, FH, wp)
         return np.asarray(f, dtype=float).reshape(len(zarr), nf), np.asarray(d, dtype=float).reshape(len(zarr), nf)
 
-    phi0, dphi = prof(zs)
+    # the EOM object is shared by all profile cases of a worker (other field counts, other minima before this one):
+    # the profile is a function of its arguments only
+    v.checked("profile-shape")
+    try:
+        phi0, dphi = prof(zs)
+    except ValueError as exc:
+        if "reshape" not in str(exc) and "broadcast" not in str(exc):
+            raise
+        v.fail("profile-shape", f"nf={nf}", f"EOM.wallProfile for {nf} field(s) at {len(zs)} position(s) returned arrays of "
+               f"another size ({exc}) on an EOM object that evaluated other profiles before")
+        return
+    # far behind / in front of the wall the profile sits at the two minima it was given
+    v.checked("profile-endpoints")
+    zfar = 60.0 * float(np.max(w)) * (1.0 + float(np.max(np.abs(o))))
+    ends, _ = prof(np.array([-zfar, zfar]))
+    sc_f = max(float(np.max(np.abs(vl))), float(np.max(np.abs(vh))), 1e-300)
+    if not (np.all(np.abs(ends[0] - vl) <= 1e-12 * sc_f) and np.all(np.abs(ends[1] - vh) <= 1e-12 * sc_f)):
+        v.fail("profile-endpoints", f"nf={nf}", f"EOM.wallProfile at z = -+{zfar:.4g} is {ends[0].tolist()} / {ends[1].tolist()}; the "
+               f"minima handed over are {vl.tolist()} / {vh.tolist()}")
+        return
     v.checked("profile-derivative")
     near = False
     worst = 0.0
